@@ -53,6 +53,8 @@ def concretise(sess, case):
         pad = 255
     elif room == 'ext256':
         pad = 256
+    elif room[0] == 'p':
+        pad = int(room[1:])
     elif room != 'large':
         # pad so that exactly k bytes are left for IPv4 prefixes after header, length fields and attributes
         k = -40 if room == 'neg' else int(room[1:])
@@ -63,23 +65,27 @@ def concretise(sess, case):
         if pad < 0:
             return None
         if room != 'neg':
-            _, m = ref_for(pad, '')
-            if not m or max_len - 23 - len(wire_attrs(m[0])) != k:
+            # check the padding on a reference 16 bytes shorter (the one with exactly k bytes left cannot carry the /24 of the
+            # reference route when k < 4); both paddings are far above the 255/256 length switch, so the size is linear
+            _, m = ref_for(pad - 16, '')
+            if pad - 16 <= 256 or not m or max_len - 23 - len(wire_attrs(m[0])) - 16 != k:
                 return None
     at = attr_text(pad, extra)
     ann, wd, req_a, req_w = [], [], [], []
     attrs = None
     n4 = {'0': 0, '1': 1, '2': 2, 'fill': 2300}[case['a4']]
     for i in range(n4):
-        net = ipaddress.ip_network('10.9.128.0/17') if i == 1 else ipaddress.ip_network(f'10.{1 + i // 250}.{i % 250}.0/24')
+        # two routes: a short prefix first, a longer one second (a message with room for the first only must not be overfilled by the second)
+        net = ipaddress.ip_network('10.9.128.0/17') if i == 1 else ipaddress.ip_network('11.0.0.0/8') if (i == 0 and n4 == 2) else ipaddress.ip_network(f'10.{1 + i // 250}.{i % 250}.0/24')
         nh4 = '2001:db8::4' if case['v4over6'] else '192.0.2.1'
         r = one(f'route {net} next-hop {nh4} {at}')
         attrs = attrs or r.attributes
         ann.append(RoutedNLRI(r.nlri, r.nexthop))
         req_a.append(key('v4u', net, pid, nh4))
-    n6 = int(case['a6'])
+    n6 = 640 if case['a6'] == 'fill' else int(case['a6'])
     for i in range(n6):
-        net = ipaddress.ip_network(f'2001:db8:{i + 1}::/48')
+        # three routes: a short prefix first, then /48s (an attribute with room for the first only must not be overfilled)
+        net = ipaddress.ip_network('2001::/16') if (i == 0 and n6 == 3) else ipaddress.ip_network(f'2001:db8:{i + 1:x}::/48')
         nh = '2001:db8::1' if (case['nh6'] == 1 or i % 2 == 0) else '2001:db8::9'
         r = one(f'route {net} next-hop {nh} {at}')
         if attrs is None:
@@ -92,14 +98,19 @@ def concretise(sess, case):
         r = one(f'route {net} next-hop 192.0.2.1')
         wd.append(r.nlri)
         req_w.append(key('v4u', net, pid))
-    for i in range(int(case['w6'])):
-        net = ipaddress.ip_network(f'2001:db8:ff{i}::/48')
+    for i in range(640 if case['w6'] == 'fill' else int(case['w6'])):
+        net = ipaddress.ip_network(f'2001:db9:{i + 1:x}::/48')
         r = one(f'route {net} next-hop 2001:db8::1')
         wd.append(r.nlri)
         req_w.append(key('v6u', net, pid))
     if attrs is None:
         attrs = one(f'route 10.0.1.0/24 next-hop 192.0.2.1 {at}').attributes
     ref_r = one(f'route 10.0.1.0/24 next-hop 192.0.2.1 {at}')
+    if room.startswith('k') and int(room[1:]) < 4:
+        # no /24 fits next to these attributes: the reference is the attribute block alone (an UPDATE without NLRI)
+        ab = bytes(ref_r.attributes.pack_attribute(sess.neg, True))
+        body = b'\x00\x00' + len(ab).to_bytes(2, 'big') + ab
+        return ann, wd, attrs, req_a, req_w, b'\xff' * 16 + (19 + len(body)).to_bytes(2, 'big') + b'\x02' + body
     if room == 'neg':
         # a reference that fits: the same attributes cannot be encoded at all, use the unpadded ones (only Fits/Parses matter)
         ref_r = one('route 10.0.1.0/24 next-hop 192.0.2.1 ' + attr_text(-1, extra))
@@ -145,7 +156,7 @@ def run(tier: str) -> int:
     ck.assumptions += ['how routes are partitioned over messages is left free; a route repeated with identical content is tolerated']
     rnd = random.Random(seed())
     states = updcheck.gen_rows(ck, 'Gen_ExaPack', 1 if tier == 'quick' else 2, 'c09' + tier[0], invariants=('TableOK',))
-    limit = 140 if tier == 'quick' else 1500
+    limit = 200 if tier == 'quick' else 1500
     ck.cov['exhaustive'] = len(states) <= limit
     if len(states) > limit:
         states = rnd.sample(states, limit)
